@@ -28,7 +28,7 @@ CM = 'xdoctest.checker._check_match'
 
 
 def run(ctx):
-    for fn in (r1_only_under_flag, r2_exact_without_marker, r3_bounds_reach_scan, r4_split_pattern, r5_verdict_sources, r6_flag_read_is_current):
+    for fn in (r1_only_under_flag, r2_exact_without_marker, r3_bounds_reach_scan, r4_split_pattern, r4b_regex_gaps_span_newlines, r5_verdict_sources, r6_flag_read_is_current):
         ctx.rep.rule(fn, ctx)
 
 
@@ -109,12 +109,17 @@ def r3_bounds_reach_scan(ctx):
     got = params[0]
     # bound variables: end <- len(got); start <- 0
     endvars, startvars = set(), set()
+    def is_len_of(e, nm):
+        return isinstance(e, ast.Call) and is_name(e.func, 'len') and e.args and is_name(e.args[0], nm)
     for d in rd.defs:
         v = d.value
-        if isinstance(v, ast.Call) and is_name(v.func, 'len') and v.args and is_name(v.args[0], got):
-            endvars.add(d.name)
-        if isinstance(v, ast.Constant) and v.value == 0 and d.kind == 'assign':
-            startvars.add(d.name)
+        if not isinstance(v, ast.AST):
+            continue
+        if is_len_of(v, got) or (isinstance(v, ast.BinOp) and isinstance(v.op, ast.Sub) and is_len_of(v.left, got)):
+            endvars.add(d.name)           # end <- len(got)  or  len(got) - len(suffix)
+        elif (isinstance(v, ast.Constant) and v.value == 0 and d.kind == 'assign') or (isinstance(v, ast.Call) and is_name(v.func, 'len') and v.args and not is_name(v.args[0], got) and d.name not in endvars):
+            startvars.add(d.name)         # start <- 0  or  len(prefix)
+    startvars -= endvars
     need(endvars and startvars, 'C06.R3: scan bounds not recognised (end <- len(got), start <- 0)')
     # searches for a piece on got
     searches = []
@@ -157,6 +162,15 @@ def r3_bounds_reach_scan(ctx):
         facts = graph.guard_facts(dom, n)
         if any(isinstance(fa.expr, ast.Call) and isinstance(fa.expr.func, ast.Attribute) and fa.expr.func.attr == 'endswith' and fa.polarity is True for fa in facts):
             ok = True
+    if not ok:
+        for d in rd.defs:
+            v = d.value
+            if d.name in endvars and isinstance(v, ast.BinOp) and isinstance(v.op, ast.Sub) and is_len_of(v.left, got) and isinstance(v.right, ast.Call) and is_name(v.right.func, 'len'):
+                facts = graph.guard_facts(dom, d.node)
+                if any(isinstance(fa.expr, ast.Call) and isinstance(fa.expr.func, ast.Attribute) and fa.expr.func.attr == 'endswith' and fa.polarity is True and fa.expr.args and
+                       ast.unparse(fa.expr.args[0]) == ast.unparse(v.right.args[0]) for fa in facts):
+                    ok = True
+                    dec = [d.node]
     rep.ob('C06.R3', ctx.loc(f, dec[0].ast if dec else f.node), 'suffix anchor reserves its length', ok,
            'the end bound is decreased by the suffix length on the endswith branch' if ok else 'the anchored suffix no longer reserves its text: a middle piece may overlap it', anchor=EM)
     adv = []
@@ -170,6 +184,21 @@ def r3_bounds_reach_scan(ctx):
     # anchors fail -> False
     for meth in ('startswith', 'endswith'):
         tests = [n for n in g.nodes if n.kind == 'test' and isinstance(n.ast, ast.Call) and isinstance(n.ast.func, ast.Attribute) and n.ast.func.attr == meth and is_name(n.ast.func.value, got)]
+        if not tests:
+            # the anchor test is part of a combined condition: the branch on which the anchor is NOT known to hold must return False
+            for n in g.nodes:
+                if n.kind == 'test' and not n.dup and any(isinstance(x, ast.Call) and isinstance(x.func, ast.Attribute) and x.func.attr == meth and is_name(x.func.value, got) for x in ast.walk(n.ast)):
+                    for b in n.nsucc():
+                        if b.kind != 'branch':
+                            continue
+                        holds = any(isinstance(fa.expr, ast.Call) and isinstance(fa.expr.func, ast.Attribute) and fa.expr.func.attr == meth and fa.polarity is True
+                                    for fa in graph.facts_of(n.ast, b.attrs['polarity'], b))
+                        if holds:
+                            continue
+                        first = graph.path([b], lambda x: x.kind == 'stmt' and isinstance(x.ast, ast.Return), efilter=graph.normal_only)
+                        okc = first is not None and isinstance(first[-1].ast.value, ast.Constant) and first[-1].ast.value.value is False and len(first) <= 3
+                        rep.ob('C06.R3', ctx.loc(f, n.ast), 'not %s anchor -> False' % meth, okc,
+                               'a missing anchored end is a mismatch' if okc else 'a got that lacks the anchored %s piece is not rejected' % ('first' if meth == 'startswith' else 'last'), anchor=EM)
         for t in tests:
             fb = [b for b in t.nsucc() if b.kind == 'branch' and b.attrs['polarity'] is False]
             rets = [x for x in graph.reachable(fb, efilter=graph.normal_only) if x.kind == 'stmt' and isinstance(x.ast, ast.Return)]
@@ -213,6 +242,47 @@ def r5_verdict_sources(ctx):
     verdict_sources(ctx, 'C06.R5')
 
 
+def r4b_regex_gaps_span_newlines(ctx):
+    """if the matcher (or a helper) lets a regular expression stand for the text between two pieces, its `.` must match newlines: the property
+    allows arbitrary, possibly multi-line, text in place of each '...'"""
+    rep = ctx.rep
+    f = ctx.func(EM)
+    rd = ctx.rd(f)
+    g = ctx.cfg(f)
+    n = 0
+    for nd in g.nodes:
+        if nd.dup:
+            continue
+        for c in node_calls(nd):
+            if not (isinstance(c.func, ast.Attribute) and isinstance(c.func.value, ast.Name) and c.func.value.id == 're' and c.func.attr in ('search', 'match', 'fullmatch', 'compile', 'findall', 'finditer')):
+                continue
+            pat = c.args[0] if c.args else None
+            parts = [pat] if pat is not None else []
+            # follow local names and module constants once
+            for x in list(ast.walk(pat)) if pat is not None else []:
+                if isinstance(x, ast.Name):
+                    for d in rd.at(nd, x.id):
+                        if isinstance(d.value, ast.AST):
+                            parts.append(d.value)
+                            for y in ast.walk(d.value):
+                                if isinstance(y, ast.Name) and y.id in f.module.assigns:
+                                    parts.append(f.module.assigns[y.id])
+                    if x.id in f.module.assigns:
+                        parts.append(f.module.assigns[x.id])
+            consts_ = [y.value for p_ in parts for y in ast.walk(p_) if isinstance(y, ast.Constant) and isinstance(y.value, str)]
+            gaps = [t for t in consts_ if '.*' in t or '.+' in t]
+            if not gaps:
+                continue
+            n += 1
+            flags = next((k.value for k in c.keywords if k.arg == 'flags'), c.args[2] if len(c.args) > 2 and c.func.attr != 'compile' else (c.args[1] if c.func.attr == 'compile' and len(c.args) > 1 else None))
+            dotall = flags is not None and any(isinstance(y, ast.Attribute) and y.attr in ('DOTALL', 'S') for y in ast.walk(flags))
+            inline = any('(?s' in t for t in consts_)
+            rep.ob('C06.R4b', ctx.loc(f, c), ctx.src(c, 90), dotall or inline,
+                   'the gap pattern %r is applied with DOTALL' % gaps[0] if dotall or inline else
+                   "the text between two pieces is matched by %r without re.DOTALL: '.' does not match a newline, so an ellipsis between two inner pieces cannot stand for multi-line text" % gaps[0], anchor=EM)
+    rep.note('regex_gap_sites', n)
+
+
 def r4_split_pattern(ctx):
     """the want is cut at the marker together with the whitespace around it; the pieces are literal text"""
     import re as _re
@@ -221,10 +291,19 @@ def r4_split_pattern(ctx):
     f = ctx.func(EM)
     fold = consts.Folder(ctx.prog)
     splits = [c for c in ast.walk(f.node) if isinstance(c, ast.Call) and ast.unparse(c.func) in ('re.split',)]
-    need(len(splits) == 1, 'C06.R4: re.split of the want not found')
-    c = splits[0]
+    pre = [c for c in ast.walk(f.node) if isinstance(c, ast.Call) and isinstance(c.func, ast.Attribute) and c.func.attr == 'split' and isinstance(c.func.value, ast.Name) and
+           c.func.value.id in f.module.assigns and isinstance(f.module.assigns[c.func.value.id], ast.Call) and ast.unparse(f.module.assigns[c.func.value.id].func) == 're.compile']
+    need(len(splits) + len(pre) == 1, 'C06.R4: re.split of the want not found')
+    if splits:
+        c = splits[0]
+        pat_expr, want_arg, cshape = c.args[0], (c.args[1] if len(c.args) > 1 else None), c
+    else:
+        c = pre[0]
+        comp = f.module.assigns[c.func.value.id]
+        pat_expr, want_arg = comp.args[0], (c.args[0] if c.args else None)
+        cshape = ast.Call(func=ast.Attribute(value=ast.Name(id='re', ctx=ast.Load()), attr='split', ctx=ast.Load()), args=[pat_expr] + list(c.args), keywords=list(c.keywords))
     try:
-        pat = fold.fold(f.module, c.args[0], None, f)
+        pat = fold.fold(f.module, pat_expr, None, f if splits else None)
     except consts.NotConstant as ex:
         raise AnalysisError('C06.R4: split pattern not foldable: %s' % ex)
     marker = fold.module_const('xdoctest.checker', 'ELLIPSIS_MARKER')
@@ -244,10 +323,10 @@ def r4_split_pattern(ctx):
     rep.ob('C06.R4', ctx.loc(f, c), 'split pattern %r' % pat, ok,
            'the want is cut at every literal marker, absorbing only the whitespace around it' if ok else
            'the split pattern is not  \\s* <escaped marker> \\s*  : other characters are absorbed or the marker is treated as a regex', anchor=EM)
-    prob = re_call_problem(c)
+    prob = re_call_problem(cshape)
     rep.ob('C06.R4', ctx.loc(f, c), 'every marker is a cut point', prob is None, 'the number of splits is not limited' if prob is None else
            prob + ': only the first markers of a want act as wildcards, later ones are compared literally', anchor=EM)
-    ok2 = is_name(c.args[1], f.node.args.args[1].arg) if len(c.args) > 1 else False
+    ok2 = is_name(want_arg, f.node.args.args[1].arg)
     rep.ob('C06.R4', ctx.loc(f, c), 'the want (not the got) is split', ok2, ctx.src(c, 80), nontrivial=False, anchor=EM)
     # the pieces are used as literal text (find / startswith / endswith), never as patterns
     used_as_regex = [x for x in ast.walk(f.node) if isinstance(x, ast.Call) and ast.unparse(x.func) in ('re.search', 're.match', 're.findall', 're.fullmatch', 're.compile') ]
